@@ -303,13 +303,13 @@ func (t *tokGen) itemScript(mask uint, attempts int, fbOK bool, execS string) It
 			}
 			it.Exec = append(it.Exec, v)
 		} else {
-			it.Exec = append(it.Exec, t.errStrJ(false))
+			it.Exec = append(it.Exec, t.errStrJ(true))
 		}
 	}
 	if fbOK {
 		it.Fb = t.val()
 	} else {
-		it.Fb = t.errStrJ(false)
+		it.Fb = t.errStrJ(true) // a fallback that fails may still return a value (even a Result) next to its error
 	}
 	return it
 }
@@ -348,7 +348,7 @@ func randBatchCfg(r *rng, allowWide bool) BatchCfg {
 	c := BatchCfg{Budget: 1 + r.intn(3), Wait: 0, Fb: r.pick([]string{"pass", "pass", "custom"}),
 		ExecS: r.pick([]string{"res", "res", "any"}), HasPost: !r.chance(8),
 		Shape: r.pick([]string{"results", "results", "anys", "typed", "single", "nil"}),
-		Build: r.pick([]string{"option", "builder", "bare"})}
+		Build: r.pick([]string{"option", "builder", "bare"}), ExecVia: r.pick([]string{"", "", "copt", "cbuilder"})}
 	switch r.intn(4) {
 	case 0, 1:
 		c.Conc = 0
